@@ -100,6 +100,9 @@ structure PercCfg where
       newest record ≤ the read version win whatever its kind (false: a rollback marker then hides
       the older committed value — C17's finding)? -/
   readSkipsRollback : Bool
+  /-- `prewriteMutation`: a duplicate prewrite of the same transaction leaves its existing lock as
+      it is (true) or rewrites it, resetting TTL and a pushed min-commit ts (false, old shape) -/
+  prewriteKeepsOwnLock : Bool
   deriving DecidableEq, Repr
 
 /-- `lock != nil && lock.Ts != req.StartVersion` -/
@@ -115,8 +118,9 @@ def lockBlocks (ks : KeyState) (v : Nat) : Bool :=
   | none => false
 
 /-- `prewriteMutation` -/
-def prewriteKey (start ttl : Nat) (m : Mut) (ks : KeyState) : KeyState × KErr :=
+def prewriteKey (pc : PercCfg) (start ttl : Nat) (m : Mut) (ks : KeyState) : KeyState × KErr :=
   if lockedByOther ks start then (ks, .locked)
+  else if pc.prewriteKeepsOwnLock && ks.lock.isSome then (ks, .ok)      -- already prewritten by this transaction
   else if hasNewer ks.writes start then (ks, .conflict)
   else ({ lock := some ⟨start, ttl, 0, m.kind⟩, writes := ks.writes,
           data := setData ks.data start m.dataVal }, .ok)
@@ -162,12 +166,12 @@ def resolveKey (start cv : Nat) (ks : KeyState) : KeyState × KErr :=
     else commitKey ks l cv
 
 /-- `Prewrite`: every mutation is attempted, errors are collected -/
-def prewrite (start ttl : Nat) : List Mut → Store → Store × List KErr
+def prewrite (pc : PercCfg) (start ttl : Nat) : List Mut → Store → Store × List KErr
   | [], s => (s, [])
   | m :: ms, s =>
-    let r := prewriteKey start ttl m (s m.key)
+    let r := prewriteKey pc start ttl m (s m.key)
     let s1 := if r.2 = .ok then s.set m.key r.1 else s
-    let rest := prewrite start ttl ms s1
+    let rest := prewrite pc start ttl ms s1
     (rest.1, if r.2 = .ok then rest.2 else r.2 :: rest.2)
 
 /-- `Commit`: stops at the first key error; keys before it stay committed -/
